@@ -86,16 +86,18 @@ def plan(tier, seed):
         b += [{'id': f'l{k}', 'mode': 'lattice', 'm': 4, 'part': k, 'parts': 2}
               for k in range(2)]
         return b
-    b = [{'id': f'r{k}', 'mode': 'rand', 'k': k, 'n': 1250}
-         for k in range(48)]                                      # 60000 pairs
+    # (sized on a machine shared with other jobs; the 48 x 1250 + 16 x 400 +
+    # 20 bounds-checking batches variant was run once and was silent, too)
+    b = [{'id': f'r{k}', 'mode': 'rand', 'k': k, 'n': 625}
+         for k in range(32)]                                      # 20000 pairs
     b += [{'id': f'l{k}', 'mode': 'lattice', 'm': 6, 'part': k, 'parts': 32}
           for k in range(32)]
     b += [{'id': f'p{k}', 'mode': 'lattice3', 'm': 4, 'k': k, 'n': 400}
-          for k in range(16)]
+          for k in range(8)]
     b += [{'id': f'bc{k}', 'mode': 'rand', 'k': 100000+k, 'n': 120,
-           'boundscheck': True} for k in range(16)]
-    b += [{'id': f'bcl{k}', 'mode': 'lattice', 'm': 4, 'part': k, 'parts': 4,
-           'boundscheck': True} for k in range(4)]
+           'boundscheck': True} for k in range(8)]
+    b += [{'id': f'bcl{k}', 'mode': 'lattice', 'm': 4, 'part': k, 'parts': 2,
+           'boundscheck': True} for k in range(2)]
     return b
 
 
